@@ -16,7 +16,7 @@ from vlib import core
 from codec import persist_schemas as ps
 from codec.schemas import Refused
 
-BINS = ["h_persist", "h_scorer", "h_lockstep"]
+BINS = ["h_persist", "h_scorer", "h_lockstep", "h_msgcut", "h_recv"]
 LEVEL = "proof"
 MANIFEST = {
     "category": "proof",
@@ -41,7 +41,7 @@ def run(ctx):
         return
     ctx.trusted_base += [
         "Coq 8.16.1 kernel + vm_compute (no native_compute)",
-        "tools/codec/persist_schemas.py (TLV numbers and kinds of the persistence macro invocations, regenerated every run)",
+        "tools/codec/persist_schemas.py (TLV numbers and kinds of the persistence macro invocations; pairing of hand-written write/read TLV blocks and the name normalisation of the field pins; allowlist tools/codec/persist_pins.json), regenerated every run",
         "Codec/Tlv.v transliteration of _decode_tlv_stream_range!/_encode_tlv!/read_tlv_fields!/write_tlv_fields! (validated against the real decoder under C13)",
         "harness crate /verif/harness (h_persist) and LDK functional_test_utils / test_utils",
     ]
@@ -55,6 +55,9 @@ def run(ctx):
     except Exception as ex:
         gen_err = "persistence schema extraction failed: %r" % (ex,)
     proved = False
+    pin_viol = (meta or {}).get("pin_violations") or []
+    if pin_viol:
+        ctx.log("field pins violated:", json.dumps(pin_viol[:5]))
     if gen_err is None:
         okm, outm = ctx.coq_make(["Codec/Tlv.vo", "Gen/PersistSchemas.vo"])
         if not okm:
@@ -90,8 +93,13 @@ def run(ctx):
     # ---- scorer + sweeper (behavioural lock-step with re-read copies) and manager/monitor lock-step
     extra_fails = []
     nsc, nops, nls = (6, 100, 40) if ctx.tier == "quick" else (60, 250, 800)
-    for binname, args, kinds in (("h_scorer", [str(nsc), str(ctx.seed), str(nops)], ("scorer", "sweeper")),
-                                 ("h_lockstep", [str(nls), str(ctx.seed)], ("lockstep",))):
+    nmc, nrecv = (2, 1) if ctx.tier == "quick" else (40, 20)
+    jobs = [("h_scorer", [str(nsc), str(ctx.seed), str(nops)], ("scorer", "sweeper"), 2 * nsc),
+            ("h_lockstep", [str(nls), str(ctx.seed)], ("lockstep",), nls),
+            ("h_msgcut", [str(nmc), str(ctx.seed)], ("msgcut",), nmc)]
+    for j in range(nrecv):
+        jobs.append(("h_recv", [str(ctx.seed + 7919 * j)], ("recv",), 10))
+    for binname, args, kinds, want in jobs:
         rc2, lines2 = ctx.run_bin(binname, "", args=args, timeout=1500)
         got = []
         for l in lines2:
@@ -100,7 +108,6 @@ def run(ctx):
                     got.append(json.loads(l[2:]))
                 except ValueError:
                     pass
-        want = (2 * nsc) if binname == "h_scorer" else nls
         if rc2 != 0 or len(got) != want:
             ctx.violation("%s crashed or produced too few scenario results" % binname, {"broken": "judge:" + binname, "rc": rc2, "n": len(got), "want": want,
                           "tail": [l for l in lines2 if "panicked" in l or "memory allocation" in l][-3:], "replay_cmd": "%s %s" % (ctx.bin_path(binname), " ".join(args))}, True)
@@ -114,6 +121,16 @@ def run(ctx):
                     if isinstance(vv, int) and not isinstance(vv, bool) and kk not in ("scenario", "seed"):
                         agg[kk] = agg.get(kk, 0) + vv
             agg["scenarios"] = len(sub)
+            prev = ctx.coverage.get("%s_totals" % k)
+            if prev:
+                for kk, vv in prev.items():
+                    agg[kk] = agg.get(kk, 0) + vv
+            if k == "msgcut":
+                ck = {}
+                for g in sub:
+                    for kk, vv in (g.get("cut_after_kinds") or {}).items():
+                        ck[kk] = ck.get(kk, 0) + vv
+                ctx.coverage["msgcut_reload_points_by_last_message"] = ck
             ctx.coverage["%s_totals" % k] = agg
         if binname == "h_lockstep":
             modes = {}
@@ -147,17 +164,20 @@ def run(ctx):
     ctx.coverage["observations_corrupted_reads"] = [n for r in recs for n in r.get("corrupt_notes", [])][:8]
     ctx.coverage["persistence_schemas"] = (meta or {}).get("n_schemas")
     ctx.coverage["persistence_tlv_entries"] = (meta or {}).get("n_entries")
+    ctx.coverage["field_pins"] = {k: (meta or {}).get(k) for k in ("n_pins", "n_pin_name_matches", "n_pin_allowlisted")}
     sc_t, sw_t, ls_t = ctx.coverage.get("scorer_totals", {}), ctx.coverage.get("sweeper_totals", {}), ctx.coverage.get("lockstep_totals", {})
-    beh = sc_t.get("roundtrips", 0) + sc_t.get("shadow_checks", 0) + sw_t.get("roundtrips", 0) + sw_t.get("shadow_checks", 0) + ls_t.get("scenarios", 0)
+    mc_t, rv_t = ctx.coverage.get("msgcut_totals", {}), ctx.coverage.get("recv_totals", {})
+    beh = sc_t.get("roundtrips", 0) + sc_t.get("shadow_checks", 0) + sw_t.get("roundtrips", 0) + sw_t.get("shadow_checks", 0) + ls_t.get("scenarios", 0) + mc_t.get("cuts", 0) + rv_t.get("scenarios", 0)
     ctx.coverage["evaluations"] = tot.get("mon", 0) + tot.get("upd", 0) + tot.get("mgr", 0) + tot.get("graph", 0) + tot.get("mutated", 0) + beh
-    ctx.coverage["distinct_nontrivial"] = tot.get("mon", 0) + tot.get("upd", 0) + tot.get("mgr", 0) + tot.get("graph", 0) + sc_t.get("roundtrips", 0) + sw_t.get("roundtrips", 0) + ls_t.get("scenarios", 0)
+    ctx.coverage["distinct_nontrivial"] = tot.get("mon", 0) + tot.get("upd", 0) + tot.get("mgr", 0) + tot.get("graph", 0) + sc_t.get("roundtrips", 0) + sw_t.get("roundtrips", 0) + ls_t.get("scenarios", 0) + mc_t.get("cuts", 0) + rv_t.get("scenarios", 0)
     ctx.coverage["rule"] = "one object round trip per (scenario, step, node, object) where the object is a ChannelMonitor / new ChannelMonitorUpdate / ChannelManager / NetworkGraph in the state reached at that step, plus one per scorer op / sweeper block, plus one per lock-step scenario (a whole suffix compared); shadow comparisons and corrupted reads counted separately"
     ctx.samples += [{k: r.get(k) for k in ("seed", "ops", "steps", "mon", "upd", "mgr", "ok")} for r in recs[:3]]
     broken = []
     if gen_err:
         broken.append({"obligation": "persistence schema extraction", "detail": gen_err})
     elif not proved:
-        broken.append({"obligation": "Coq proof of Props/C12.v", "detail": getattr(ctx, "proof_failure", {})})
+        broken.append({"obligation": "Coq proof of Props/C12.v", "detail": getattr(ctx, "proof_failure", {}),
+                       "field_pin_violations (TLV type: place written vs variable read into)": pin_viol[:10]})
     replay_cmd = "%s 1 <seed> %d   (with the scenario seed printed in the result line; h_persist <n> <seed> <steps>)" % (ctx.bin_path("h_persist"), steps)
     if extra_fails and not fails:
         f = extra_fails[0]
